@@ -85,16 +85,19 @@ impl<const N: usize> NodeVersions<N> {
 
     /// Attempts to update the latest observed timestamp for a given source.
     fn try_update_max_stamp(&mut self, source: usize, ts: HLCTimestamp) -> bool {
+        // We have already observed (and potentially purged) events up to the safe
+        // timestamp for this node, so anything older can no longer be trusted.
+        // This is the same rule `will_apply` uses, events which are merely out of order
+        // but still within the forgiveness period must be accepted.
+        if self.is_ts_before_last_observed_event(ts) {
+            return false;
+        }
+
         match self.nodes_max_stamps[source].entry(ts.node()) {
             Entry::Occupied(mut entry) => {
-                // We have already observed these events at some point from this node.
-                // This means we can no longer trust that this key is in fact still valid.
-                if &ts < entry.get() {
-                    self.compute_safe_last_stamp(ts.node());
-                    return false;
+                if entry.get() < &ts {
+                    entry.insert(ts);
                 }
-
-                entry.insert(ts);
             },
             Entry::Vacant(v) => {
                 v.insert(ts);
